@@ -110,7 +110,7 @@ fn configs(seed: u64, thorough: bool) -> Vec<Cfg> {
             _ => attrs.iter().filter(|_| r.chance(1, 2)).map(|x| x.0).collect(),
         };
         let max_accounts = maxes[(idx + seed as usize) % maxes.len()];
-        v.push(Cfg { idx, n, t, v1, ids, max_accounts, attrs, revealed, pert, prf, extra_ar: r.chance(1, 2), holder_superset: (idx % 2 == 0) != v1 || r.chance(1, 4),
+        v.push(Cfg { idx, n, t, v1, ids, max_accounts, attrs, revealed, pert, prf, extra_ar: r.chance(1, 2), holder_superset: (idx / 2) % 2 == 0 || r.chance(1, 4),
                      nkeys: 1 + r.below(3) as u8, bad_threshold: bad });
     };
     // sampled large configurations first (so that shards get them evenly)
